@@ -51,7 +51,7 @@ def main():
             mp = os.path.join(dst, "meta.json")
             meta = json.load(open(mp))
             meta["on_twin"] = twin
-            meta["round"] = "8 (slips in refactored code)"
+            meta["round"] = os.environ.get("ROUND", "8") + " (slips in refactored code)"
             json.dump(meta, open(mp, "w"), indent=1, ensure_ascii=False)
     finally:
         shutil.rmtree(t, ignore_errors=True)
